@@ -78,6 +78,47 @@ func c04UnitSteps(c *Ctx, r *RuleResult, lexT *types.Named) {
 				firstPos[b] = in
 			}
 		})
+		// `end += w; endRunes++` where w is 1 on some incoming edges and a decoded width on others: on the edges that
+		// bring the constant one, the byte stepped over must be below 0x80
+		for _, s := range storesToField([]*ssa.Function{fn}, lexT, "end") {
+			bo, ok := s.store.Val.(*ssa.BinOp)
+			if !ok || bo.Op != token.ADD || !isFieldLoad(bo.X, lexT, "end") {
+				continue
+			}
+			ph, ok := stripChange(bo.Y).(*ssa.Phi)
+			if !ok {
+				continue
+			}
+			// the byte read at the cursor that dominates the phi
+			var scrV ssa.Value
+			var scrIn ssa.Instruction
+			allInstrs(fn, func(in ssa.Instruction) {
+				idx, v, ok := strIndex(in)
+				if !ok || !isByteVal(v) || !isFieldLoad(stripChange(idx), lexT, "end") {
+					return
+				}
+				if in.Block().Dominates(ph.Block()) && (scrIn == nil || scrIn.Block().Dominates(in.Block())) {
+					scrV, scrIn = v, in
+				}
+			})
+			if scrV == nil {
+				continue
+			}
+			_, edges := reachSetsEdges(fn, scrV, scrIn.Block(), ivFull(0xFF))
+			for i, e := range ph.Edges {
+				k, isK := constNum(e)
+				if !isK || k != 1 {
+					continue
+				}
+				set := edges[ph.Block()][ph.Block().Preds[i]]
+				site := fmt.Sprintf("width 1 chosen at %s in %s", p.Pos(s.store.Pos()), p.FuncName(fn))
+				if len(set) > 0 && set[len(set)-1][1] >= 0x80 {
+					r.Fail(s.store.Pos(), p.FuncName(fn), "byte cursor advanced by one over a byte that may start a multi-byte character", "on one incoming path the width of the character is taken to be 1 although the byte may be "+set.String()+": the byte cursor then stops inside the character while the rune cursor counts it, and every following byte of it is counted as a further character")
+				} else {
+					r.OK(site, "the byte is below 0x80 on the path that takes width 1")
+				}
+			}
+		}
 		undo := map[*ssa.BasicBlock]bool{}
 		var steps []*ssa.BasicBlock
 		for b, m := range unit {
